@@ -460,7 +460,18 @@ func (c *maskCtx) helper(call *ast.CallExpr) map[string]bool {
 	}
 	sub := &maskCtx{p: c.p, info: fi.Pkg.TypesInfo, depth: c.depth + 1}
 	// inside a helper the masked value may be a local/param; accept assignments to any target
-	return sub.helperBlock(fi.Decl.Body.List, map[types.Object]string{})
+	got := sub.helperBlock(fi.Decl.Body.List, map[types.Object]string{})
+	// a same-receiver method extracted from Process(): its body is judged like a Process arm
+	// (`if this.Dbc != ""` assumed true, Dbc re-assigned from ToStringStr)
+	if fi.Decl.Recv != nil {
+		for k := range sub.block(fi.Decl.Body.List, map[types.Object]string{}) {
+			if got == nil {
+				got = map[string]bool{}
+			}
+			got[k] = true
+		}
+	}
+	return got
 }
 
 func (c *maskCtx) helperBlock(list []ast.Stmt, last map[types.Object]string) map[string]bool {
